@@ -22,6 +22,13 @@ from typing import List
 from abc import ABC, abstractmethod
 import numpy as np
 
+def _negative(x):
+    """
+    Return -x. Numpy unsigned integers (e.g. sums coming from an array of dtype uint32) cannot be negated - they wrap around - so they are converted to int first.
+    """
+    return -int(x) if isinstance(x, np.unsignedinteger) else -x
+
+
 class Objective(ABC):
     @abstractmethod
     def value_to_minimize(self, sums:list, are_sums_in_ascending_order:bool=False)->float:
@@ -40,7 +47,7 @@ class Objective(ABC):
 
 class MaximizeTheSmallestSum(Objective):
     def value_to_minimize(self, sums:list, are_sums_in_ascending_order:bool=False)->float:
-        return -sums[0] if are_sums_in_ascending_order else -min(sums)
+        return _negative(sums[0] if are_sums_in_ascending_order else min(sums))
     def __str__(self) -> str:
         return "maximize-smallest-sum"
     # def lower_bound(self, current_sums:list, value_to_add:float, bin_index:int, sum_of_remaining_items:float, are_sums_in_ascending_order:bool=False)->float:
@@ -88,7 +95,7 @@ class MaximizeKSmallestSums(Objective):
         self.num_smallest_parts = num_smallest_parts
     def value_to_minimize(self, sums: List[float], are_sums_in_ascending_order=False) -> float:
         sorted_sums = sums if are_sums_in_ascending_order else sorted(sums)
-        return -sum(sorted_sums[0: self.num_smallest_parts])
+        return _negative(sum(sorted_sums[0: self.num_smallest_parts]))
     def __str__(self) -> str:
         return f"maximize-{self.num_smallest_parts}-smallest-sums"
 
